@@ -207,37 +207,37 @@ theorem reach_g2 : Reach noRun g2 :=
 
 theorem reach_g3 : Reach noRun g3 :=
   reach_g2.new .typed [1] [(1, 1)] [] (by decide +kernel) (by decide +kernel) (by decide +kernel)
-    (by decide +kernel) (by decide +kernel) (by decide +kernel) (by decide +kernel)
+    (by decide +kernel) (by decide +kernel) (by decide +kernel) (by decide +kernel) (by decide +kernel)
 
 theorem reach_g4 : Reach noRun g4 :=
   reach_g3.new .typed [0, 1, 2] [(1, 2)] [⟨0, gp⟩] (by decide +kernel) (by decide +kernel)
     (by decide +kernel) (by decide +kernel) (by decide +kernel) (by decide +kernel)
-    (by decide +kernel)
+    (by decide +kernel) (by decide +kernel)
 
 theorem reach_g5 : Reach noRun g5 :=
   reach_g4.new .typed [0, 1, 2] [(1, 3)] [⟨0, gp⟩] (by decide +kernel) (by decide +kernel)
     (by decide +kernel) (by decide +kernel) (by decide +kernel) (by decide +kernel)
-    (by decide +kernel)
+    (by decide +kernel) (by decide +kernel)
 
 theorem reach_g6 : Reach noRun g6 :=
   reach_g5.new .typed [0, 1] [(1, 4)] [⟨0, pa⟩] (by decide +kernel) (by decide +kernel)
     (by decide +kernel) (by decide +kernel) (by decide +kernel) (by decide +kernel)
-    (by decide +kernel)
+    (by decide +kernel) (by decide +kernel)
 
 theorem reach_g7 : Reach noRun g7 :=
   reach_g6.new .typed [0, 1] [(1, 5)] [⟨0, pb⟩] (by decide +kernel) (by decide +kernel)
     (by decide +kernel) (by decide +kernel) (by decide +kernel) (by decide +kernel)
-    (by decide +kernel)
+    (by decide +kernel) (by decide +kernel)
 
 theorem reach_g8 : Reach noRun g8 :=
   reach_g7.new .typed [0, 1] [(1, 6)] [⟨0, pa⟩] (by decide +kernel) (by decide +kernel)
     (by decide +kernel) (by decide +kernel) (by decide +kernel) (by decide +kernel)
-    (by decide +kernel)
+    (by decide +kernel) (by decide +kernel)
 
 theorem reach_g9 : Reach noRun g9 :=
   reach_g8.new .typed [0, 1, 3] [(1, 7)] [⟨0, pa⟩, ⟨3, pb⟩] (by decide +kernel) (by decide +kernel)
     (by decide +kernel) (by decide +kernel) (by decide +kernel) (by decide +kernel)
-    (by decide +kernel)
+    (by decide +kernel) (by decide +kernel)
 
 /-- **non-vacuity**: the hypotheses of the theorems of §1 hold in `g9`, for the marker filter and
     for the filter with a relation constraint -/
@@ -410,7 +410,7 @@ theorem reachB_s10 : ReachB noRun s10 :=
       have : r = ⟨0, pb⟩ := by simpa using hr
       subst this
       exact Or.inr (by decide +kernel))
-    (by decide +kernel) (by decide +kernel)
+    (by decide +kernel) (by decide +kernel) (by decide +kernel)
 
 /-- … and histories continue after them: after the re-parenting, one batch with the relation
     constraint "child of `pb`" removes the four children, a second batch removes both parents
